@@ -150,6 +150,13 @@ func (self *Interpreter) forStatement(node ast.AnalyzedForStatement) *value.Inte
 		return i
 	}
 
+	// Iterate over a snapshot: mutating the list inside the loop body must not change the iteration (like the VM).
+	if list, isList := (*iterVal).(value.ValueList); isList {
+		snapshot := make([]*value.Value, len(*list.Values))
+		copy(snapshot, *list.Values)
+		iterVal = value.NewValueList(snapshot)
+	}
+
 	iterator := (*iterVal).IntoIter()
 
 	// add a new scope for the loop
